@@ -40,6 +40,14 @@ SROW = z3.Function("string_row", z3.IntSort(), z3.IntSort())        # format def
 SLEN = z3.Function("string_words", z3.IntSort(), z3.IntSort())      # format definition: number of value WORDS of that string
 
 
+def dense_record_def(FI_, F4_, P, bi, wper, br):
+    """one-step FORMAT DEFINITION of a dense record whose body starts at byte offset P: (constraints on its integers, the equation for its length marker,
+    offset E of the first byte after the body).  Used by the reader contract (on the abstract file FI/F4) and by the writer contract (on the words it wrote)."""
+    nw = FI_(P - bi)
+    E = P + br * (nw / wper)
+    return z3.And(nw >= 0, nw % wper == 0, FI_(P - 2 * bi) >= 1), F4_(P - 3 * bi - 4) == E - (P - 3 * bi), E
+
+
 class Tok:
     """bytes returned by fp.read: n bytes starting at offset p"""
 
@@ -182,12 +190,12 @@ def make_env(layout):
         wper, br, cols = st.env["wper"], st.env["bytesreal"], st.env["cols"]
         nw = FI(P - bi)
         if layout == "dense":
-            E = P + br * (nw / wper)
-            body = z3.And(nw >= 0, nw % wper == 0, FI(P - 2 * bi) >= 1)
+            body, lenmark, E = dense_record_def(FI, F4, P, bi, wper, br)
         else:
             E = SEND(P, nw)
             body = WFS(P, nw)
-        return z3.Implies(z3.And(WFM(P), FI(P - 3 * bi) - 1 < cols), z3.And(body, F4(P - 3 * bi - 4) == E - (P - 3 * bi), WFM(E + 8 + 3 * bi)))
+            lenmark = F4(P - 3 * bi - 4) == E - (P - 3 * bi)
+        return z3.Implies(z3.And(WFM(P), FI(P - 3 * bi) - 1 < cols), z3.And(body, lenmark, WFM(E + 8 + 3 * bi)))
 
     def next_body(eng, e, st, spec):
         """offset of the body of the record that follows the one whose body starts at P"""
